@@ -58,6 +58,7 @@ class World:
                 'all': L,
                 'small': L[:5],
                 'small2': L[3:9],
+                'nine': L[2:11],
                 'perm': L[::-1],
                 'rows': L[:7],
                 'cols': L[2:],
@@ -98,7 +99,7 @@ def ops_strategy():
                                  'mp': st.booleans(), 'workers': st.integers(1, 16), 'exact': st.booleans()})
     dmg = st.fixed_dictionaries({'op': st.just('damage'), 'which': st.integers(0, 50), 'how': st.sampled_from(DAMAGE)})
     fresh = st.just({'op': 'fresh'})
-    m0 = st.fixed_dictionaries({'op': st.just('m0'), 'lst': st.sampled_from(['small', 'small2', 'rows']), 'mp': st.booleans(),
+    m0 = st.fixed_dictionaries({'op': st.just('m0'), 'lst': st.sampled_from(['small', 'small2', 'rows', 'nine']), 'mp': st.booleans(),
                                 'workers': st.integers(1, 4)})
     def A(curve, test, trial, mp, w):
         return {'op': 'assemble', 'curve': curve, 'test': test, 'trial': trial, 'mp': mp, 'workers': w}
@@ -453,6 +454,8 @@ def crash_point_cases():
     B = lambda te, tr, w: {'op': 'assemble', 'curve': 'UnitSquareBig', 'test': te, 'trial': tr, 'mp': True, 'workers': w}
     out.append({'ops': [B('r8', 'c17', 1), B('r6', 'c34', 1), {'op': 'fresh'}, B('r6', 'c37', 2)]})
     out.append({'ops': [B('r6', 'c49', 3), B('r3', 'c64', 2), B('r3', 'c49', 1)]})
+    # the same for the load vector (chunk = N // (8 workers) + 1): nine elements, one worker
+    out.append({'ops': [{'op': 'm0', 'lst': 'nine', 'mp': True, 'workers': 1}, {'op': 'm0', 'lst': 'nine', 'mp': False, 'workers': 1}]})
     out.append({'ops': [{'op': 'm0_fault', 'after': 35}, {'op': 'fresh'}]})
     out.append({'ops': [{'op': 'm0_fault', 'after': 40.5}, {'op': 'fresh'}]})
     out.append({'ops': [{'op': 'sl_fault', 'after': 2}, {'op': 'fresh'}, {'op': 'sl_fault', 'after': 1}]})
